@@ -104,15 +104,18 @@ Proof. exact run_ok_program_sound. Qed.
 
 (* ---------- jump limit ----------
    `jump_limit_side_condition J := J <= 65535` is what encoding an accepted distance in a u16 needs.
-   On the unchanged tree the regenerated JUMP_SIZE_MAX is 65536: the side condition is FALSE and the
-   distance 65536 is accepted and wraps to 0 (known class jump_65536).
-   AFTER THE FIX (common.rs: JUMP_SIZE_MAX = u16::MAX, regenerated 65535) this file stops compiling at
-   C04_jump_limit_refuted; the one-line change is:   Definition JUMP_FIX_LANDED : bool := true.
-   (the theorem then states the TRUE side condition + round trip of every accepted distance; rename it
-   C04_jump_limit_side_condition at leisure, the proof term is the same). *)
-Definition JUMP_FIX_LANDED : bool := false.
-Theorem C04_jump_limit_refuted : jump_limit_status JUMP_FIX_LANDED Consts.JUMP_SIZE_MAX.
+   History: up to /repo 99d40fc the regenerated JUMP_SIZE_MAX was 65536, the side condition was FALSE and the
+   distance 65536 was accepted and wrapped to 0 (class jump_65536); this theorem was then stated with
+   JUMP_FIX_LANDED := false, i.e. as the refutation (~ side condition /\ a wrapped accepted distance).
+   Since fix 927c3c9 (common.rs: JUMP_SIZE_MAX = u16::MAX) the switch is `true`: the theorem states the TRUE
+   side condition and the round trip of EVERY accepted distance.  If the constant regresses above 65535 this
+   file stops compiling here (the one-line change back is JUMP_FIX_LANDED := false, and the class reopens). *)
+Definition JUMP_FIX_LANDED : bool := true.
+Theorem C04_jump_limit_side_condition : jump_limit_status JUMP_FIX_LANDED Consts.JUMP_SIZE_MAX.
 Proof. exact (jump_limit_decide Consts.JUMP_SIZE_MAX). Qed.
+(* the refutation for the old constant stays as a regression witness *)
+Theorem C04_jump_limit_refuted_at_65536 : jump_limit_status false 65536.
+Proof. exact (jump_limit_decide 65536). Qed.
 Theorem C04_jump_roundtrip : forall off, off <= 65535 -> decode16 (encode16 off) = off.
 Proof. exact encode16_roundtrip. Qed.
 
@@ -136,5 +139,6 @@ Print Assumptions C04_program_sound.
 Print Assumptions C04_verified_program_safe.
 Print Assumptions C04_run_ok_sound.
 Print Assumptions C04_run_ok_program_sound.
-Print Assumptions C04_jump_limit_refuted.
+Print Assumptions C04_jump_limit_side_condition.
+Print Assumptions C04_jump_limit_refuted_at_65536.
 Print Assumptions C04_jump_roundtrip.
